@@ -203,7 +203,11 @@ def run_readers(chk, tier, flavor, nthreads, label):
         loc = " ".join(l.strip()[:140] for l in r.stderr.splitlines() if "#0" in l or "Location" in l or "SUMMARY" in l)[:600]
         events.append({"e": "S", "file": "-", "thread": -1, "rd_seq": {"fin": "eof"}, "rd_thr": {"fin": what + " " + loc}})
     # copies of one read block, one per thread, walked at the same time; compared with an independent reading walked alone
-    rc = subprocess.run(["timeout", "900", str(exe), "readcopies", str(lst), str(nthreads), "2" if tier == "quick" else "6", str(prefix)],
+    # (bounded: every file costs N copies of every block and N walks; under ThreadSanitizer a tenth of the speed)
+    clst = work / "copy_paths.txt"
+    cpaths = paths if tier == "quick" else paths[:: max(1, len(paths) // (60 if flavor == "tsan" else 200))]
+    clst.write_text("\n".join(str(p) for p in cpaths) + "\n")
+    rc = subprocess.run(["timeout", "900", str(exe), "readcopies", str(clst), str(nthreads), "2" if tier == "quick" or flavor == "tsan" else "3", str(prefix)],
                         capture_output=True, text=True, env=env)
     cf = Path(f"{prefix}.copies.ndjson")
     ncop = 0
